@@ -89,6 +89,16 @@ def run(ck):
     if ok:
         c = ren[0][1]
         ok = any(k[0] == 'truth' and k[1] == "ptm.nodes[ptm_idx]['PTM_atom']" for k in flow.atoms_of(c)) and u(ren[0][0].value) == 'ptm_node[attr]'
+    else:
+        # the same transfer as one `mol_node.update({attr: ptm_node[attr] for attr in ptm_node if attr not in (..)})` under the same guard
+        upd = stmts_with_env(fp, lambda s: isinstance(s, ast.Expr) and isinstance(s.value, ast.Call) and call_attr(s.value) == 'update' and u(s.value.func.value) == 'mol_node'
+                             and s.value.args and isinstance(s.value.args[0], ast.DictComp))
+        if len(upd) == 1:
+            dc = upd[0][0].value.args[0]
+            excluded = [try_fold(c_.comparators[0], default=()) for i_ in dc.generators[0].ifs for c_ in [i_] if isinstance(c_, ast.Compare) and isinstance(c_.ops[0], ast.NotIn)]
+            ok = any(k[0] == 'truth' and k[1] == "ptm.nodes[ptm_idx]['PTM_atom']" for k in flow.atoms_of(upd[0][1])) and u(dc.key) == u(dc.generators[0].target) and \
+                u(dc.value) == 'ptm_node[{}]'.format(u(dc.key)) and u(dc.generators[0].iter) == 'ptm_node' and len(dc.generators) == 1 and \
+                [set(e_) for e_ in excluded] == [{'PTM_atom', 'replace'}]
     ck.ob('MPT-label', mod.loc(fp), ok, 'atoms added by the modification take its canonical attributes (name included)', key='MPT-label|rename')
 
     # ------------------------------------------------------------ candidate modifications: induced matches, anchor by name, PTM atom by element
@@ -169,6 +179,14 @@ def run(ck):
     # .. and they have the last word: the canonical attributes of an added atom (name, element, resname of the template) are copied first, the declared
     # changes (`replace`) are applied after them -- the other way round the template value overwrites the change
     tmpl = [s_ for s_ in walk_local(fp) if isinstance(s_, ast.Assign) and u(s_.targets[0]) == 'mol_node[attr]' and u(s_.value) == 'ptm_node[attr]']
+    if not tmpl:
+        # the same transfer spelled as one update: mol_node.update({attr: ptm_node[attr] for attr in ptm_node if ..})
+        tmpl = [s_ for s_ in walk_local(fp) if isinstance(s_, ast.Expr) and isinstance(s_.value, ast.Call) and call_attr(s_.value) == 'update' and
+                u(s_.value.func.value) == 'mol_node' and s_.value.args and 'ptm_node' in u(s_.value.args[0])]
+        if not tmpl:
+            tmpl = [s_ for s_ in walk_local(fp) if isinstance(s_, ast.Expr) and isinstance(s_.value, ast.Call) and call_attr(s_.value) == 'update' and
+                    u(s_.value.func.value) == 'mol_node' and s_.value.args and isinstance(s_.value.args[0], ast.Name) and
+                    any('ptm_node' in u(d_) for d_ in assignments_to(fp, s_.value.args[0].id))]
     from ..util import runs_after
     okord = len(tmpl) == 1 and len(rep) == 1 and runs_after(fp, mod.stmt_of(tmpl[0]), rep[0][0]) and not runs_after(fp, rep[0][0], mod.stmt_of(tmpl[0])) \
         if len(rep) == 1 and len(tmpl) == 1 else False
